@@ -14,33 +14,46 @@ RULE = ('exhaustive: every shape of rank 1..R with extents 1..E (quick R=E=3, th
         '(all-positive, all-negative, mixed-sign + shuffled order) and None x keepdims false/true (compile-time True/False, run-time bool, '
         'argument omitted) x initial absent/present x axis kind int/vector, through view::reduce with the order-revealing functor '
         'f(a,b)=31a+b on uint32 (data[k]=k+1); view::accumulate on every axis; index::remove_dims / reduction_slices directly; '
-        'named routines against NumPy on integer-valued data; plus seeded random shapes of rank 1..5 / extents 1..7. non-trivial = some fold combines >= 2 elements')
+        'named routines against NumPy on integer-valued data (dtype absent/int64/float32/float64 x initial absent/present); '
+        'fixed-dim sources (shape in std::array) with every axis listed explicitly as run-time int / std::array / tuple of ct, '
+        'where the view is a number read through reduce_t::operator num_type(); every shape of rank 1..R with extents 0..2 containing a 0 '
+        '(empty results; folds over no element = initial value / identity); an axis named several times under keepdims; trace for every ordered axis '
+        'pair (positive / negative spelling) and every offset, through the Lean model; plus seeded random shapes of rank 1..5 / extents 1..7. '
+        'non-trivial = some fold combines >= 2 elements')
 EXHAUSTIVE = {'quick': True, 'thorough': True}
 ANCHORS = {
     'NmVerif.Reduce.normalizeAxis/normalizeAxes': 'index::normalize_axis',
     'NmVerif.Reduce.removeDims': 'index::remove_dims',
     'NmVerif.Reduce.reductionSlices': 'index::reduction_slices',
     'NmVerif.Reduce.reducer': 'view::reducer_t::operator()',
-    'NmVerif.Reduce.reduceElem/reduce': 'view::reduce_t::operator(), reduce_t<axis=None>, view::reduce (run-time keepdims -> either)',
+    'NmVerif.Reduce.flattenReduce': 'unwrap(view::flatten(x)) + reducer_t in reduce_t / accumulate_t (Nothing for a zero-size x)',
+    'NmVerif.Reduce.reduceElem/reduce': 'view::reduce_t::operator(), operator num_type(), reduce_t<axis=None>, view::reduce (run-time keepdims -> either)',
     'NmVerif.Reduce.accumulateElem/accumulate': 'view::accumulate_t::operator()',
+    'NmVerif.Reduce.diagonal/trace': 'view::diagonal (index::shape_diagonal, index::diagonal), view::trace = view::sum(diagonal, -1)',
 }
 MANIFEST = dict(
-    text='Proof: 24 Lean theorems over every rank/extent/axis list and an arbitrary binary op (no commutativity or associativity assumed): '
-         'result shape = NumPy (single/multi/negative/unsorted axes, keepdims, None), each result element = left fold of exactly the source '
-         'elements with matching non-reduced coordinates in increasing C order, independence of the order of the axis list, accumulate = '
+    text='Proof: 41 Lean theorems over every rank/extent/axis list and an arbitrary binary op (no commutativity or associativity assumed): '
+         'result shape = NumPy (single/multi/negative/unsorted axes, keepdims, None; extents 0 included), each result element = left fold of '
+         'exactly the source elements with matching non-reduced coordinates in increasing C order, for EVERY shape (a fold over no element = '
+         'the initial value, else the identity of the functor), independence of the order of the axis list and, under keepdims, of repetitions in it, accumulate = '
          'running fold, all addressed indices in bounds, sum/prod/amax/amin/cumsum/cumprod as instances, mean/var/stddev/vector_norm as '
-         'plumbing statements over abstract element operations; tied to the C++ by an exhaustive small-scope differential run of '
-         'view::reduce/accumulate with an order-revealing functor and of the named routines against NumPy on every check.',
+         'plumbing statements over abstract element operations, trace = fold of the diagonal elements for every axis pair and EVERY offset '
+         '(0 on an empty diagonal); tied to the C++ by an exhaustive small-scope differential run of view::reduce/accumulate with an '
+         'order-revealing functor (dynamic-dim and fixed-dim sources, array- and number-typed views) and of the named routines against '
+         'NumPy on every check.',
     note='Lean kernel + propext/Classical.choice/Quot.sound; model hand-written, fidelity rests on the correspondence run; slicing by in-range '
          '(start,stop) pairs is taken as C05 proves it, the broadcast inside var as C06 proves it; float arithmetic of mean/var/stddev/vector_norm '
-         'is compared with NumPy under a tolerance; trace has no Lean statement; one genuine defect listed as known finding '
-         '(trace with a negative offset, in index::diagonal); fixed-shape and clipped container kinds are in C09.',
+         'is compared with NumPy under a tolerance; model and theorems follow the tree repaired by fixes/C08-trace-empty-diagonal.diff '
+         '(a fold over no element); '
+         'fixed-shape and clipped container kinds are in C09.',
     technique='Lean 4 induction proofs over List Nat shapes + differential correspondence (exhaustive small scope) + NumPy oracle')
 ASSUMPTIONS = ['apply_slice with in-range pairs 0 <= start < stop <= extent has shape stop-start and reads start+d (C05 domain theorem; observed here through every element of every reduction)',
                'uint32 arithmetic of the order-revealing functor is modelled as Nat mod 2^32',
-               'compile-time axes are exercised as meta::ct<k> and tuples of ct on dynamic arrays (rank <= 3); fixed-shape / clipped kinds are covered by the C09 kind matrix, not here']
-PARTIAL = ['trace: no Lean statement here (sum over the last axis of view::diagonal; the diagonal index map belongs to C04/C16); covered by comparison with numpy.trace for every axis pair and every offset with a non-empty diagonal',
-           'mean_eq_sum_div_count / var_eq_mean_sq_dev / stddev_eq_sqrt_var / vector_norm_eq are plumbing statements over abstract element operations (which elements are folded, in which order, divided by their count); var takes the broadcast of the keepdims mean against the input as the index map C06 proves; the float arithmetic itself is compared with NumPy under a tolerance']
+               'compile-time axes are exercised as meta::ct<k> and tuples of ct on dynamic-dim arrays (rank <= 3) and on fixed-dim arrays (all axes listed); fixed-shape / clipped kinds are covered by the C09 kind matrix, not here',
+               'the diagonal index functions (Linalg.shapeDiagonal / diagonalIdx) are the mirrors written for C16; here they are tied to the code through every element of every trace request']
+PARTIAL = ['mean_eq_sum_div_count / var_eq_mean_sq_dev / stddev_eq_sqrt_var / vector_norm_eq (and their _pos_axes forms) are plumbing statements over abstract element operations (which elements are folded, in which order, divided by their count); var takes the broadcast of the keepdims mean against the input as the index map C06 proves; the float arithmetic itself is compared with NumPy under a tolerance',
+           'mean / var / stddev / vector_norm over NO element (a reduced extent 0) stay outside the modelled domain (their theorems ask the reduced extents to be positive; NumPy gives nan with a warning)',
+           'var / stddev on a shape with a REDUCED extent 0 are not requested: view::var fails earlier, in the broadcast of the keepdims mean against the input (index::broadcast_shape((0,0),(1,0)) answers (1,0); NumPy (0,0)) — a broadcasting matter outside this property, reported to the lead']
 TRUSTED = []
 
 
@@ -55,7 +68,13 @@ def harness_specs(tier):
             dict(name='h_c08r', src='h_c08r.cpp', flavour='fast'),
             dict(name='h_c08f1', src='h_c08f.cpp', flavour='fast', extra=['-DC08F_PART=1']),
             dict(name='h_c08f2', src='h_c08f.cpp', flavour='fast', extra=['-DC08F_PART=2']),
-            dict(name='h_c08f3', src='h_c08f.cpp', flavour='fast', extra=['-DC08F_PART=3'])]
+            dict(name='h_c08f3', src='h_c08f.cpp', flavour='fast', extra=['-DC08F_PART=3']),
+            dict(name='h_c08f4', src='h_c08f.cpp', flavour='fast', extra=['-DC08F_PART=4']),
+            # fixed-dim sources, every axis listed: the view is a number, read through reduce_t::operator num_type()
+            dict(name='h_c08s1', src='h_c08s.cpp', flavour='fast', extra=['-DC08S_PART=1']),
+            dict(name='h_c08s2', src='h_c08s.cpp', flavour='fast', extra=['-DC08S_PART=2']),
+            # asserts on: a fold over no element must not trip anything (repaired defect reduce.empty-fold)
+            dict(name='h_c08r_dbg', src='h_c08r.cpp', flavour='dbg')]
 
 
 # ------------------------------------------------------------------------------------------------
@@ -78,8 +97,10 @@ def ref_reduce(op, data, shape, axes, keep, init):
         groups.setdefault(j, []).append(data[flat])
     res = []
     for j in itertools.product(*[range(e) for e in out_shape]):
-        es = groups[j]
+        es = groups.get(j, [])
         if init is None:
+            if not es:
+                raise ValueError('zero-size array to reduction operation which has no identity')
             acc, rest = es[0], es[1:]
         else:
             acc, rest = init, es
@@ -132,7 +153,54 @@ def pred_trace_negative_offset(case):
     return _kv(case.req).get('offset', '0').startswith('-')
 
 
-KNOWN_PREDICATES = {'trace_negative_offset': pred_trace_negative_offset}
+def _ints(v):
+    return [] if v in ('[]', '') else [int(x) for x in v.split(',')]
+
+
+def empty_fold_class(shape, axes, keep):
+    """some reduced axis has extent 0 while the result has at least one element (so an element is evaluated)"""
+    nd = len(shape)
+    if axes is not None and any(not (-nd <= a < nd) for a in axes):
+        return False
+    R = set(range(nd)) if axes is None else {a % nd for a in axes}
+    if not any(shape[k] == 0 for k in R):
+        return False
+    return all(e > 0 for k, e in enumerate(shape) if k not in R)
+
+
+def pred_reduce_empty_fold(case):
+    """reduce / sum / prod / amax / amin over an axis of extent 0 with a non-empty result"""
+    t = case.req.split()
+    if t[0] != 'reduce':
+        return False
+    kv = _kv(case.req)
+    shape = _ints(kv.get('shape', ''))
+    axes = None if kv.get('axis') == 'None' else _ints(kv.get('axis', ''))
+    return empty_fold_class(shape, axes, kv.get('keepdims') == '1')
+
+
+def diag_len(shape, off, a1, a2):
+    n1, n2 = shape[a1], shape[a2]
+    return max(0, min(n1 - max(-off, 0), n2 - max(off, 0)))
+
+
+def pred_trace_empty_diagonal(case):
+    """trace whose diagonal is empty (offset beyond the extent, or an extent 0) with a non-empty result"""
+    if case.req.split()[0] != 'trace':
+        return False
+    kv = _kv(case.req)
+    shape = _ints(kv.get('shape', ''))
+    nd = len(shape)
+    a1, a2, off = int(kv['axis1']), int(kv['axis2']), int(kv['offset'])
+    if nd < 2 or not (-nd <= a1 < nd and -nd <= a2 < nd) or a1 % nd == a2 % nd:
+        return False
+    a1 %= nd; a2 %= nd
+    return diag_len(shape, off, a1, a2) == 0 and all(e > 0 for k, e in enumerate(shape) if k not in (a1, a2))
+
+
+KNOWN_PREDICATES = {'trace_negative_offset': pred_trace_negative_offset,
+                    'reduce_empty_fold': pred_reduce_empty_fold,
+                    'trace_empty_diagonal': pred_trace_empty_diagonal}
 
 
 # ------------------------------------------------------------------------------------------------
@@ -299,12 +367,20 @@ def gen_ufuncs(tier, rng):
                                 yield Case('reduce op=%s api=%s ax=%s %s' % (op, api, axk, base), 'h_c08r', oracle=ans(oshape, ores), nontrivial=nt,
                                            tags=['named-' + {'add': 'sum', 'mul': 'prod', 'max': 'amax', 'min': 'amin'}[op], 'api=' + api, srank])
                     if op in ('add', 'mul') and axes is not None:
-                        oshape, ores = ref_reduce(PY_OP[op], data, s, axes, bool(keep), None)
+                        # dtype absent/int/float x initial absent/present (NumPy: np.sum(a, axis, dtype=…, initial=…))
                         for dt in ('i64', 'f32', 'f64'):
-                            api = rng.choice(['view', 'array'])
-                            yield Case('reduce op=%s api=%s dtype=%s shape=%s axis=%s keepdims=%d init=None data=%s' % (
-                                op, api, dt, fmt(s), fmt(axes), keep, fmt(data)), 'h_c08r', oracle=ans(oshape, ores), nontrivial=nt,
-                                tags=['named-' + ('sum' if op == 'add' else 'prod'), 'dtype=' + dt, srank])
+                            for init in (None, INIT_OF[op]):
+                                oshape, ores = ref_reduce(PY_OP[op], data, s, axes, bool(keep), init)
+                                npdt = {'i64': np.int64, 'f32': np.float32, 'f64': np.float64}[dt]
+                                kw = {} if init is None else {'initial': init}
+                                npr = np.asarray((np.sum if op == 'add' else np.prod)(np.array(data, dtype=np.int32).reshape(s), axis=tuple(axes),
+                                                 dtype=npdt, keepdims=bool(keep), **kw))
+                                assert (list(npr.shape), [int(x) for x in npr.reshape(-1)]) == (oshape, ores)
+                                api = rng.choice(['view', 'array'])
+                                yield Case('reduce op=%s api=%s dtype=%s shape=%s axis=%s keepdims=%d init=%s data=%s' % (
+                                    op, api, dt, fmt(s), fmt(axes), keep, init, fmt(data)), 'h_c08r', oracle=ans(oshape, ores), nontrivial=nt,
+                                    tags=['named-' + ('sum' if op == 'add' else 'prod'), 'dtype=' + dt, srank,
+                                          'dtype+init=' + ('absent' if init is None else 'present')])
             for ax in range(nd):
                 oshape, ores = ref_accumulate(PY_OP[op], data, s, ax)
                 assert (oshape, ores) == numpy_accumulate(op, data, s, ax)
@@ -378,28 +454,45 @@ def gen_float(tier, rng):
                         tg = ['api=' + api, 'et=' + et, srank, 'keepdims=%d' % keep]
                         yield Case('mean ' + base, 'h_c08f1', model=True, oracle=fans(np.mean(a, axis=ax, keepdims=bool(keep))), cmp=tol,
                                    nontrivial=nt, tags=['mean'] + tg)
-                        for ddof in (0, 1):
+                        for ddof in (0, 1, 2):
                             if count - ddof <= 0:
                                 continue
                             yield Case('var ddof=%d %s' % (ddof, base), 'h_c08f1', model=True, cmp=tol, nontrivial=nt, tags=['var', 'ddof=%d' % ddof] + tg,
                                        oracle=fans(np.var(a, axis=ax, ddof=ddof, keepdims=bool(keep))))
                             yield Case('stddev ddof=%d %s' % (ddof, base), 'h_c08f2', model=True, cmp=tol, nontrivial=nt, tags=['stddev', 'ddof=%d' % ddof] + tg,
                                        oracle=fans(np.std(a, axis=ax, ddof=ddof, keepdims=bool(keep))))
-                    for ord_ in (1, 2, 3):
+                    for ord_ in (1, 2, 3, 4):
                         axk = 'int' if (axes is not None and len(axes) == 1 and rng.random() < 0.5) else 'vec'
                         yield Case('vector_norm api=%s et=f64 ax=%s ord=%d shape=%s axis=%s keepdims=%d data=%s' % (api, axk, ord_, fmt(s), axs, keep, fmt(data)),
                                    'h_c08f3', model=True, cmp=close_cmp(1e-5, 1e-6), nontrivial=nt, tags=['vector_norm', 'ord=%d' % ord_, 'api=' + api, srank],
                                    oracle=fans(np.linalg.vector_norm(a, axis=ax, keepdims=bool(keep), ord=ord_)))
-        # trace: every ordered pair of distinct axes, every offset with a non-empty diagonal
+                    if api == 'view':
+                        # a real order (5/2), passed to the view as double
+                        axk = 'int' if (axes is not None and len(axes) == 1 and rng.random() < 0.5) else 'vec'
+                        yield Case('vector_norm api=view et=f64 ax=%s ord=5 ordden=2 shape=%s axis=%s keepdims=%d data=%s' % (axk, fmt(s), axs, keep, fmt(data)),
+                                   'h_c08f3', model=True, cmp=close_cmp(1e-5, 1e-6), nontrivial=nt, tags=['vector_norm', 'ord=2.5', 'api=view', srank],
+                                   oracle=fans(np.linalg.vector_norm(a, axis=ax, keepdims=bool(keep), ord=2.5)))
+        # trace: every ordered pair of distinct axes (each written as a positive or as a negative number), every offset
+        # with a non-empty diagonal: in the domain of trace_eq_sum_diag, answered by the Lean model too
         if nd >= 2:
             for a1, a2 in itertools.permutations(range(nd), 2):
                 for off in range(-s[a1] + 1, s[a2]):
                     for api in ('view', 'array'):
                         et = rng.choice(['f64', 'i32'])
-                        req = 'trace api=%s et=%s shape=%s offset=%d axis1=%d axis2=%d data=%s' % (api, et, fmt(s), off, a1, a2, fmt(data))
-                        # negative offset: known finding trace.negative-offset (index::diagonal) -> off-domain
-                        yield Case(req, 'h_c08f3', model=False, dom=off >= 0, cmp=close_cmp(1e-12, 1e-12), nontrivial=min(s[a1], s[a2]) > 1,
-                                   oracle=fans(np.trace(a, offset=off, axis1=a1, axis2=a2)), tags=['trace', 'api=' + api, srank, 'offset<0' if off < 0 else 'offset>=0'])
+                        w1 = a1 - nd if rng.random() < 0.5 else a1
+                        w2 = a2 - nd if rng.random() < 0.5 else a2
+                        req = 'trace api=%s et=%s shape=%s offset=%d axis1=%d axis2=%d data=%s' % (api, et, fmt(s), off, w1, w2, fmt(data))
+                        yield Case(req, 'h_c08f4', model=True, dom=True, cmp=close_cmp(1e-12, 1e-12), nontrivial=diag_len(s, off, a1, a2) > 1,
+                                   oracle=fans(np.trace(a, offset=off, axis1=a1, axis2=a2)),
+                                   tags=['trace', 'api=' + api, srank, 'offset<0' if off < 0 else 'offset>=0',
+                                         'axes=' + ('neg' if w1 < 0 and w2 < 0 else 'mixed' if w1 < 0 or w2 < 0 else 'pos')])
+                # the offsets just beyond the extent: empty diagonal, the sum over no element is 0 (NumPy; repaired defect
+                # trace.empty-diagonal), theorem trace_eq_sum_diag_any_offset
+                for off in (-s[a1], s[a2]):
+                    api = rng.choice(['view', 'array'])
+                    yield Case('trace api=%s et=i32 shape=%s offset=%d axis1=%d axis2=%d data=%s' % (api, fmt(s), off, a1, a2, fmt(data)),
+                               'h_c08f4', model=True, dom=True, cmp=close_cmp(1e-12, 1e-12), nontrivial=False,
+                               oracle=fans(np.trace(a, offset=off, axis1=a1, axis2=a2)), tags=['trace', 'empty-diagonal', srank])
     # float fold order: the sum of (1e16, 1, -1e16, …) depends on the order; the reference is the sequential left fold in IEEE double
     vals = [1e16, 1.0, -1e16, 3.0, 1e16, -1e16, 0.5]
     nord = 60 if tier == 'quick' else 400
@@ -414,7 +507,7 @@ def gen_float(tier, rng):
         oshape, ores = ref_reduce(lambda x, y: x + y, data, s, axes, bool(keep), None)
         api = rng.choice(['view', 'array'])
         yield Case('fsum api=%s et=f64 shape=%s axis=%s keepdims=%d data=%s' % (api, fmt(s), 'None' if axes is None else fmt(axes), keep,
-                   ','.join(repr(x) for x in data)), 'h_c08f3', model=False, cmp=close_cmp(0.0, 0.0),
+                   ','.join(repr(x) for x in data)), 'h_c08f4', model=False, cmp=close_cmp(0.0, 0.0),
                    oracle='ok shape=%s data=%s' % (fmt(oshape), ','.join(repr(float(x)) for x in ores)), tags=['float-fold-order', 'api=' + api])
 
 
@@ -446,13 +539,221 @@ def gen_random_large(tier, rng):
                        oracle=ans(oshape, ores), nontrivial=n > 1, tags=['reduce', 'random-large', 'axes=None'])
 
 
+S_CT = {1: [[0], [-1]], 2: [[0, 1], [1, 0], [-1, -2]], 3: [[0, 1, 2], [2, 0, 1], [-1, 0, -2]]}
+S_CT_NAMED = {1: [[0]], 2: [[1, 0]], 3: [[2, 0, 1]]}
+
+
+def gen_scalar(tier, rng):
+    """fixed-dim sources (shape in std::array<size_t,N>) with EVERY axis listed explicitly (run-time int, std::array<int,N>,
+    tuple of ct; any order, positive / negative): with keepdims False the number of axes is known at compile time to equal
+    the rank, the view is a number and its value comes from the conversion operator of the primary reduce_t template —
+    initial absent/present x dtype absent/present x order-revealing op, add, multiply, maximum."""
+    E = 3 if tier == 'quick' else 4
+    for s in shapes(3, E, min_rank=1):
+        nd, n = len(s), prod(s)
+        srank = 'rank=%d' % nd
+        data = list(range(1, n + 1))
+        perms = [list(p) for p in itertools.permutations(range(nd))]
+        alls = []
+        for p in perms:
+            alls.append(p)
+            alls.append([k - nd for k in p])
+            if nd >= 2:
+                m = [k - nd if rng.random() < 0.5 else k for k in p]
+                if m not in alls:
+                    alls.append(m)
+        # ---- order-revealing functor through view::reduce --------------------------------------------------
+        for axes in alls:
+            for keep in (0, 1):
+                for init in (None, 7):
+                    oshape, ores = ref_reduce(f31, data, s, axes, bool(keep), init)
+                    for kd in ('ct', 'rt'):
+                        kinds = ['arr'] + (['int'] if nd == 1 else [])
+                        if kd == 'ct' and not keep and axes in S_CT[nd]:
+                            kinds.append('ct')
+                        for axk in kinds:
+                            yield Case('reduce op=f31 shape=%s axis=%s keepdims=%d init=%s kd=%s ax=%s num=%d' % (fmt(s), fmt(axes), keep, init, kd, axk, 0 if keep else 1), 'h_c08s1',
+                                       oracle=ans(oshape, ores), nontrivial=n > 1,
+                                       tags=['reduce', 'fixed-dim', 'all-axes-explicit', srank, 'keepdims=%d' % keep, 'kd=' + kd, 'ax=' + axk,
+                                             'init=' + ('absent' if init is None else 'present')] + (['scalar-result'] if not keep else []))
+        # fewer axes than the rank on the same sources: an array again (operator()(indices...))
+        if nd >= 2:
+            for sub in itertools.combinations(range(nd), nd - 1):
+                axes = [k - nd if rng.random() < 0.5 else k for k in sub]
+                rng.shuffle(axes)
+                for init in (None, 7):
+                    keep = rng.randint(0, 1)
+                    oshape, ores = ref_reduce(f31, data, s, axes, bool(keep), init)
+                    yield Case('reduce op=f31 shape=%s axis=%s keepdims=%d init=%s kd=%s ax=arr num=0' % (fmt(s), fmt(axes), keep, init, rng.choice(['ct', 'rt'])), 'h_c08s1',
+                               oracle=ans(oshape, ores), nontrivial=any(s[k] > 1 for k in sub),
+                               tags=['reduce', 'fixed-dim', srank, 'init=' + ('absent' if init is None else 'present')])
+        # ---- sum / prod / amax, lazily and eagerly, dtype absent / float32 ------------------------------------
+        for op in ('add', 'mul', 'max'):
+            d = data_for(op, n, rng)
+            cand = [rng.choice(alls), rng.choice(alls)] + [a for a in S_CT_NAMED[nd]]
+            for axes in cand:
+                for init in (None, INIT_OF[op]):
+                    oshape, ores = ref_reduce(PY_OP[op], d, s, axes, False, init)
+                    assert numpy_reduce(op, d, s, axes, False, init) == (oshape, ores)
+                    for dt in ('None', 'f32'):
+                        for api in ('view', 'array'):
+                            kinds = ['arr'] + (['int'] if nd == 1 else []) + (['ct'] if axes in S_CT_NAMED[nd] else [])
+                            for axk in kinds:
+                                yield Case('reduce op=%s api=%s dtype=%s shape=%s axis=%s keepdims=0 init=%s kd=ct ax=%s num=1 data=%s' % (
+                                    op, api, dt, fmt(s), fmt(axes), init, axk, fmt(d)), 'h_c08s2', oracle=ans(oshape, ores),
+                                    nontrivial=n > 1, tags=['named-' + {'add': 'sum', 'mul': 'prod', 'max': 'amax'}[op], 'fixed-dim', 'all-axes-explicit',
+                                                            'scalar-result', srank, 'api=' + api, 'dtype=' + dt, 'ax=' + axk,
+                                                            'init=' + ('absent' if init is None else 'present')])
+                    if op == 'add':
+                        # run-time keepdims: either<array, number>
+                        for keep in (0, 1):
+                            oshape, ores = ref_reduce(PY_OP[op], d, s, axes, bool(keep), init)
+                            api, dt = rng.choice(['view', 'array']), rng.choice(['None', 'f32'])
+                            yield Case('reduce op=add api=%s dtype=%s shape=%s axis=%s keepdims=%d init=%s kd=rt ax=arr num=%d data=%s' % (
+                                api, dt, fmt(s), fmt(axes), keep, init, 0 if keep else 1, fmt(d)), 'h_c08s2', oracle=ans(oshape, ores),
+                                nontrivial=n > 1, tags=['named-sum', 'fixed-dim', 'all-axes-explicit', 'kd=rt', srank,
+                                                                    'init=' + ('absent' if init is None else 'present')])
+
+
+def zero_shapes(R, E):
+    """every shape of rank 1..R with extents 0..E that contains at least one 0"""
+    for nd in range(1, R + 1):
+        for s in itertools.product(range(E + 1), repeat=nd):
+            if 0 in s:
+                yield list(s)
+
+
+def gen_zero(tier, rng):
+    """shapes containing the extent 0.  Two classes, decided by the shape and the axis argument alone:
+    * every reduced extent is positive (`PosAxes`, the domain of reduce_elem_eq_foldl_pos_axes): some kept extent is 0, the
+      result has the NumPy shape and no element; answered by IMPL, MODEL and ORACLE alike;
+    * some reduced extent is 0: when the result has an element, the code folds nothing -> known finding reduce.empty-fold
+      (NumPy: the initial value / the identity); when it has none, nothing is evaluated and all three agree again."""
+    R, E = (3, 2) if tier == 'quick' else (4, 2)
+    for s in zero_shapes(R, E):
+        nd = len(s)
+        srank = 'rank=%d' % nd
+        for sub in list(subsets(nd)) + [None]:
+            variants = [None] if sub is None else [list(sub), [k - nd if rng.random() < 0.6 else k for k in reversed(sub)]]
+            for axes in variants:
+                axs = 'None' if axes is None else fmt(axes)
+                Rset = set(range(nd)) if axes is None else {a % nd for a in axes}
+                for keep in (0, 1):
+                    oshape = [1 if k in Rset else e for k, e in enumerate(s) if keep or k not in Rset]
+                    osize = prod(oshape)
+                    yield Case('remove_dims shape=%s axis=%s keepdims=%d' % (fmt(s), axs, keep), 'h_c08', oracle='ok ' + fmt(oshape),
+                               nontrivial=False, tags=['remove_dims', 'zero-extent', srank])
+                    if not empty_fold_class(s, axes, bool(keep)):
+                        assert osize == 0
+                        tg = ['zero-extent', 'empty-result', srank, 'keepdims=%d' % keep]
+                        o = ans(oshape, [])
+                        for init in (None, 7):
+                            for kd in ('ct', 'rt'):
+                                c = Case('reduce op=f31 shape=%s axis=%s keepdims=%d init=%s kd=%s ax=vec' % (fmt(s), axs, keep, init, kd), 'h_c08',
+                                         oracle=o, nontrivial=False, tags=['reduce'] + tg)
+                                yield c
+                                if kd == 'rt':
+                                    yield Case(c.req, 'h_c08_san', oracle=o, model=False, nontrivial=False, tags=['sanitizer'] + tg)
+                        if axes is not None and len(axes) == 1 and nd <= 3:
+                            yield Case('reduce op=f31 shape=%s axis=%s keepdims=%d init=None kd=ct ax=ct' % (fmt(s), axs, keep), 'h_c08c',
+                                       oracle=o, nontrivial=False, tags=['reduce', 'ax=ct'] + tg)
+                        for op in ('add', 'mul', 'max'):
+                            init = rng.choice([None, INIT_OF[op]])
+                            base = 'shape=%s axis=%s keepdims=%d init=%s' % (fmt(s), axs, keep, init)
+                            yield Case('reduce op=%s %s' % (op, base), 'h_c08n', oracle=o, nontrivial=False, tags=['ufunc-reduce', 'op=' + op] + tg)
+                            for api in ('view', 'array'):
+                                yield Case('reduce op=%s api=%s ax=vec %s' % (op, api, base), 'h_c08r', oracle=o, nontrivial=False,
+                                           tags=['named-' + {'add': 'sum', 'mul': 'prod', 'max': 'amax'}[op], 'api=' + api] + tg)
+                        if axes is not None:
+                            yield Case('reduce op=add api=%s dtype=f32 shape=%s axis=%s keepdims=%d init=None' % (rng.choice(['view', 'array']), fmt(s), axs, keep),
+                                       'h_c08r', oracle=o, nontrivial=False, tags=['named-sum', 'dtype=f32'] + tg)
+                        fo = 'ok shape=%s data=[]' % fmt(oshape)
+                        for api in ('view', 'array'):
+                            base = 'api=%s et=f64 ax=vec shape=%s axis=%s keepdims=%d' % (api, fmt(s), axs, keep)
+                            yield Case('mean ' + base, 'h_c08f1', oracle=fo, nontrivial=False, tags=['mean'] + tg)
+                            # var broadcasts the keepdims mean (extent 1) against the input: with a REDUCED extent 0 that is
+                            # index::broadcast_shape((..0..), (..1..)), which answers 1 instead of 0 (a broadcasting matter, C06;
+                            # reported, not judged here) -> var only where every reduced extent is positive
+                            if all(s[k] > 0 for k in Rset):
+                                yield Case('var ddof=0 ' + base, 'h_c08f1', oracle=fo, nontrivial=False, tags=['var'] + tg)
+                    else:
+                        # a fold over no element: the initial value, or the identity of add / multiply (NumPy; repaired defect
+                        # reduce.empty-fold; theorems reduce_elem_eq_numpy_any_shape, sum/prod_elem_eq_any_shape)
+                        tg = ['zero-extent', 'empty-fold', srank, 'keepdims=%d' % keep]
+                        for kd in ('ct', 'rt'):
+                            c = Case('reduce op=f31 shape=%s axis=%s keepdims=%d init=7 kd=%s ax=vec' % (fmt(s), axs, keep, kd), 'h_c08',
+                                     oracle=ans(oshape, [7] * osize), nontrivial=False, tags=['reduce'] + tg)
+                            yield c
+                            if kd == 'rt':
+                                yield Case(c.req, 'h_c08_san', oracle=c.oracle, model=False, nontrivial=False, tags=['sanitizer'] + tg)
+                        for op, ident in (('add', 0), ('mul', 1)):
+                            for init in (None, INIT_OF[op]):
+                                a0 = np.zeros(s, dtype=np.int64)
+                                kw = {} if init is None else {'initial': init}
+                                r = np.asarray(NP_UFUNC[op].reduce(a0, axis=None if axes is None else tuple(axes), keepdims=bool(keep), **kw))
+                                assert list(r.shape) == oshape and all(int(x) == (ident if init is None else init) for x in r.reshape(-1))
+                                o = ans(oshape, [int(x) for x in r.reshape(-1)])
+                                base = 'shape=%s axis=%s keepdims=%d init=%s' % (fmt(s), axs, keep, init)
+                                yield Case('reduce op=%s %s' % (op, base), 'h_c08n', oracle=o, nontrivial=False, tags=['ufunc-reduce', 'op=' + op] + tg)
+                                for api in ('view', 'array'):
+                                    yield Case('reduce op=%s api=%s ax=vec %s' % (op, api, base), rng.choice(['h_c08r', 'h_c08r_dbg']), oracle=o, nontrivial=False,
+                                               tags=['named-' + ('sum' if op == 'add' else 'prod'), 'api=' + api] + tg)
+                        yield Case('reduce op=max api=%s ax=vec shape=%s axis=%s keepdims=%d init=3' % (rng.choice(['view', 'array']), fmt(s), axs, keep), 'h_c08r',
+                                   oracle=ans(oshape, [3] * osize), nontrivial=False, tags=['named-amax'] + tg)
+        # accumulate keeps the source shape: no element, nothing folded
+        for ax in range(nd):
+            o = ans(s, [])
+            yield Case('accumulate op=f31 shape=%s axis=%d' % (fmt(s), ax if rng.random() < 0.5 else ax - nd), 'h_c08', oracle=o, nontrivial=False,
+                       tags=['accumulate', 'zero-extent', srank])
+            yield Case('accumulate op=add api=%s dtype=None shape=%s axis=%d' % (rng.choice(['view', 'array']), fmt(s), ax), 'h_c08r', oracle=o,
+                       nontrivial=False, tags=['named-cumsum', 'zero-extent', srank])
+        # trace of an array with an extent 0: off the two axes -> empty result; on one of them -> empty diagonal (known finding)
+        if 2 <= nd <= 3:
+            for a1, a2 in itertools.permutations(range(nd), 2):
+                rest = [e for k, e in enumerate(s) if k not in (a1, a2)]
+                req = 'trace api=%s et=i32 shape=%s offset=0 axis1=%d axis2=%d' % (rng.choice(['view', 'array']), fmt(s), a1, a2)
+                if prod(rest) == 0 and diag_len(s, 0, a1, a2) > 0:
+                    yield Case(req, 'h_c08f4', dom=True, oracle='ok shape=%s data=[]' % fmt(rest), nontrivial=False,
+                               tags=['trace', 'zero-extent', 'empty-result', srank])
+                elif prod(rest) > 0:
+                    yield Case(req, 'h_c08f4', dom=True, cmp=close_cmp(1e-12, 1e-12), nontrivial=False,
+                               oracle=fans(np.zeros(rest)), tags=['trace', 'zero-extent', 'empty-diagonal', srank])
+
+
+def gen_repeated(tier, rng):
+    """an axis named twice: NumPy refuses the argument ("duplicate value in 'axis'"), the code does not look.  With keepdims the
+    loops of remove_dims / reduction_slices are indifferent to the repetition: the view is NumPy's result for the
+    de-duplicated list (theorem reduce_repeated_axes_keepdims; the oracle folds by the SET of axes).  Without keepdims
+    remove_dims writes past its result (model: UB) — not requested."""
+    R, E = (3, 3) if tier == 'quick' else (4, 3)
+    for s in shapes(R, E, min_rank=1):
+        nd, n = len(s), prod(s)
+        data = list(range(1, n + 1))
+        for t in range(2):
+            k = rng.randrange(nd)
+            axes = [k, k - nd] if t == 0 else [rng.randrange(nd) for _ in range(rng.randint(2, 3))] + [k, k]
+            rng.shuffle(axes)
+            for init in (None, 7):
+                kd = rng.choice(['ct', 'rt'])
+                oshape, ores = ref_reduce(f31, data, s, axes, True, init)
+                yield Case('reduce op=f31 shape=%s axis=%s keepdims=1 init=%s kd=%s ax=vec' % (fmt(s), fmt(axes), init, kd), 'h_c08',
+                           oracle=ans(oshape, ores), nontrivial=any(s[a % nd] > 1 for a in axes), tags=['reduce', 'repeated-axis', 'rank=%d' % nd])
+            yield Case('remove_dims shape=%s axis=%s keepdims=1' % (fmt(s), fmt(axes)), 'h_c08', oracle='ok ' + fmt(oshape),
+                       tags=['remove_dims', 'repeated-axis'])
+
+
 _gen_f31 = gen
 
 
 def gen_witnesses():
     """the witnesses of known/C08.json, re-executed on every run"""
-    yield Case('trace api=view et=i32 shape=2,3 offset=-1 axis1=0 axis2=1 data=1,2,3,4,5,6', 'h_c08f3', model=False, dom=False,
+    # repaired (efdf09d): kept as a regression guard, now inside the domain of trace_eq_sum_diag
+    yield Case('trace api=view et=i32 shape=2,3 offset=-1 axis1=0 axis2=1 data=1,2,3,4,5,6', 'h_c08f4', model=True, dom=True,
                oracle='ok shape=[] data=4.0', cmp=close_cmp(1e-12, 1e-12), tags=['witness'])
+    # repaired (fixes/C08-trace-empty-diagonal.diff): regression guards, inside the domain of the _any_shape theorems
+    yield Case('reduce op=add api=view shape=2,0 axis=1 keepdims=0 init=5', 'h_c08r_dbg', oracle='ok shape=2 data=5,5', tags=['witness', 'empty-fold'])
+    yield Case('trace api=view et=i32 shape=3,4 offset=4 axis1=0 axis2=1 data=1,2,3,4,5,6,7,8,9,10,11,12', 'h_c08f4',
+               oracle='ok shape=[] data=0.0', cmp=close_cmp(1e-12, 1e-12), tags=['witness', 'empty-diagonal'])
 
 
 def gen(tier, rng):
@@ -467,3 +768,6 @@ def gen(tier, rng):
     yield from gen_ufuncs(tier, rng)
     yield from gen_float(tier, rng)
     yield from gen_random_large(tier, rng)
+    yield from gen_zero(tier, rng)
+    yield from gen_repeated(tier, rng)
+    yield from gen_scalar(tier, rng)
